@@ -292,7 +292,7 @@ func (x *Exec) applyContractClosure(st *State, site ssa.Instruction, callee *ssa
 	}
 	env2.bindResults(callee, results)
 	for _, en := range ct.Ensures {
-		if len(en.Props) > 0 && x.prop != "" && !hasProp(en.Props, x.prop) {
+		if en.inactive(x.prop) {
 			continue // clause scoped to other properties (label@~Cxx): not used in this run
 		}
 		t := env2.eval(en.Expr)
@@ -671,6 +671,18 @@ func (x *Exec) builtin(st *State, site ssa.Instruction, b *ssa.Builtin, c *ssa.C
 			role := chanRole(c.Args[0])
 			x.oblige(st, "cls", fmt.Sprintf("#%d", x.ordinal("cls", site)), And(Neq(ch, Zero), Not(x.closedAt(st, arr, ch))), site.Pos(),
 				"close of a non-nil channel that is not closed yet (role "+role+")")
+			if ct := x.P.ChanInv[role]; ct != nil {
+				binds := map[string]specBinding{"ch": {Val{T: ch}, c.Args[0].Type()}}
+				if sb := selfOfChan(st, c.Args[0]); sb != nil {
+					binds["self"] = *sb
+				}
+				for i, cl := range ct.OnClose {
+					if t, ok := x.evalSpecWith(st, cl.Expr, "inv", binds); ok {
+						x.oblige(st, "clsinv", fmt.Sprintf("#%d:%s:%d", x.ordinal("clsinv", site), role, i+1), t, site.Pos(),
+							"what role "+role+" promises once closed holds at the close: "+cl.Text)
+					}
+				}
+			}
 		}
 		st.heap[ghClosed] = Store(arr, ch, True)
 		k := "#closes"
@@ -752,7 +764,7 @@ func (x *Exec) doReturn(st *State, r *ssa.Return) {
 	}
 	if x.ct != nil && x.full {
 		for i, en := range x.ct.Ensures {
-			if len(en.Props) > 0 && x.prop != "" && !hasProp(en.Props, x.prop) {
+			if en.inactive(x.prop) {
 				continue
 			}
 			t, ok := x.evalSpec(st, en.Expr, "post")
